@@ -114,6 +114,10 @@ def _step(env, st, roots=None):
                 src = _src_key(op)
                 if src is not None and src in env:
                     new[(l, i)] = (env[src], src)
+    elif r == "unop" and rv.get("uop") == "Not":
+        src = _src_key(rv["a"]) if "a" in rv else None
+        if src is not None and isinstance(env.get(src), bool):
+            new[l] = (not env[src], src)
     elif r == "discr" and rv.get("variants"):
         src = _src_key(rv["place"])
         k = env.get(src) if src is not None else None
